@@ -744,6 +744,69 @@ def arch_part(tier):
     return cov, viol, errs, "archetype grid: %d (operation, archetype) cases" % n
 
 
+def rebuild_as(b, cxx, std, disable_concepts=False):
+    """The same harness binary under another compiler / standard."""
+    defs = list(b.defines) + (["GCH_DISABLE_CONCEPTS"] if disable_concepts else [])
+    base = b.name.split("-gpp-")[0].split("-clangpp-")[0]
+    name = "%s-x-%s-std%s%s%s" % (base, cxx.replace("+", "p"), std, "-noconcepts" if disable_concepts else "", "-asan" if b.asan else "")
+    return Bin(name, b.source, defines=defs, std=std, cxx=cxx, asan=b.asan, ndebug=b.ndebug, opt=b.opt, extra=b.extra)
+
+
+def plan_C17(prop, tier):
+    if tier == "quick":
+        builds = [("g++", "11", False), ("g++", "17", False), ("g++", "20", False), ("clang++", "14", False), ("clang++", "20", False)]
+    else:
+        builds = [(c, s_, False) for c in ("g++", "clang++") for s_ in ("11", "14", "17", "20", "2b")] + \
+                 [(c, s_, True) for c in ("g++", "clang++") for s_ in ("20", "2b")]
+    base = []
+    for cfg in (("NM", 0, 1), ("NM", 2, 1), ("TM", 2, 1), ("TR", 2, 1), ("INT", 2, 0), ("NM", 3, 0), ("MO", 2, 1)):
+        base.append((w1bin(*cfg), svmc_args(tier, G_ALL, 1)))
+    b2 = dict(W2_BOUNDS[tier])
+    for (f, n, m, a) in (("NM", 2, 3, 0), ("NM", 2, 2, 7), ("TR", 0, 2, -1), ("TM", 3, 2, 2)):
+        base.append((w2bin(f, n, m, a), ["--S", b2["S"], "--R", b2["R"], "--faults", 1, "--focus", G_ALL, "--deadline", b2["deadline"]]))
+    base.append((w3bin("u8", 4, 8, 0, asan=False), ["--S", 1, "--fault-kinds", 1, "--K", 255, "--L", 300, "--witnesses", 1, "--unq-depth", 1, "--deadline", 400]))
+    base.append((w3bin("u16", 3, 32, 17, asan=False), ["--S", 0, "--fault-kinds", 0, "--K", 40, "--L", 40, "--witnesses", 1, "--unq-depth", 1, "--deadline", 400]))
+    jobs, index = [], {}
+    for bi, (b, args) in enumerate(base):
+        for (c, sd, dc) in builds:
+            nb = rebuild_as(b, c, sd, dc)
+            j = Job(nb.name, nb, args)
+            jobs.append(j)
+            index[(bi, c, sd, dc)] = j
+    rep = run_svmc(prop, tier, jobs)
+    if BUILD_ONLY or rep.get("harness_errors"):
+        return rep
+    outdir = os.path.join(svlib.OUT, prop)
+    table = []
+    info_diffs = 0
+    for bi, (b, args) in enumerate(base):
+        ref = index[(bi,) + builds[0]]
+        row = {"configuration": ref.result["config"], "digest": ref.result["digest"], "builds": []}
+        for bd in builds:
+            j = index[(bi,) + bd]
+            same = (j.result["digest"] == ref.result["digest"]
+                    and j.result["stats"]["states"] == ref.result["stats"]["states"]
+                    and j.result["stats"]["transitions"] == ref.result["stats"]["transitions"])
+            if j.result.get("info_digest") != ref.result.get("info_digest"):
+                info_diffs += 1
+            row["builds"].append({"compiler": bd[0], "std": bd[1], "disable_concepts": bd[2], "identical": same})
+            if not same and not j.result["violations"] and not ref.result["violations"]:
+                detail, line = first_difference(ref, j, outdir)
+                rep["violations"].append({
+                    "oracle": "xstd.trace-differs", "op": "trace",
+                    "detail": "observable behaviour depends on the language standard / compiler: " + detail,
+                    "config": "%s: %s -std=c++%s vs %s -std=c++%s" % (ref.result["config"], builds[0][0], builds[0][1], bd[0], bd[1]),
+                    "count": 1, "desc": detail,
+                    "replay": {"kind": "twin", "binaries": [bin_spec(ref.binary), bin_spec(j.binary)], "args": ref.args}})
+        table.append(row)
+    rep["coverage"]["cross_standard"] = table
+    rep["coverage"]["builds"] = ["%s -std=c++%s%s" % (c, s_, " -DGCH_DISABLE_CONCEPTS" if dc else "") for c, s_, dc in builds]
+    rep["coverage"]["element_operation_count_differences_informational"] = info_diffs
+    rep["summary"] += "; %d configurations x %d builds, gating traces %s" % (
+        len(base), len(builds), "identical" if all(b["identical"] for r in table for b in r["builds"]) else "DIFFER")
+    return rep
+
+
 def plan_C18b_jobs(tier):
     fl = ("NM", "TM", "MO", "TR") if tier == "quick" else ("NM", "TM", "MO", "MOT", "CO", "TR", "INT")
     cfgs = grid(fl, W1_NS[tier], (1,)) + grid(("NM",), (0, 2), (0,))
@@ -753,7 +816,7 @@ def plan_C18b_jobs(tier):
 
 
 PLANS = {
-    "C07": plan_C07, "C09": plan_C09, "C12": plan_C12, "C13": plan_C13, "C14": plan_C14, "C16": plan_C16, "C18": plan_C18, "C19": plan_C19,
+    "C07": plan_C07, "C09": plan_C09, "C12": plan_C12, "C13": plan_C13, "C14": plan_C14, "C16": plan_C16, "C17": plan_C17, "C18": plan_C18, "C19": plan_C19,
     "C01": plan_C01, "C02": plan_C02, "C03": plan_C03, "C04": plan_C04, "C05": plan_C05,
     "C06": plan_C06, "C10": plan_C10, "C11": plan_C11, "C15": plan_C15,
 }
